@@ -14,7 +14,9 @@ of `pyglove/ext/evolution/base.py`) is observed by a probe:
     input or an output of an operand);
   * the inputs (decisions, binding, metadata, userdata, the list) are unchanged;
   * a fresh operator built from the same description (same seeds) gives the
-    same outputs on the same inputs, whatever the state of the global RNG.
+    same outputs on the same inputs, whatever the state of the global RNG, and
+    leaves the global RNG as it found it (every random parameter of every
+    generated operator is seeded).
 """
 import importlib
 import json
@@ -36,15 +38,19 @@ from pgverif.monitors import genoref as G
 NS = importlib.import_module('pyglove.ext.evolution.nsga2')
 
 TIERS = {
-    'quick': dict(shards=8, cases=18, apps=14, kpoint_extra=3, max_pop=8,
-                  algos=0.2, timeout_s=900, case_timeout_s=600),
-    'thorough': dict(shards=16, cases=160, apps=20, kpoint_extra=3, max_pop=12,
-                     algos=0.3, timeout_s=5400, case_timeout_s=900),
+    'quick': dict(shards=8, cases=18, apps=14, kpoint_extra=3, conflict_extra=4,
+                  max_pop=8, algos=0.2, timeout_s=900, case_timeout_s=600),
+    'thorough': dict(shards=16, cases=160, apps=20, kpoint_extra=3, conflict_extra=5,
+                     max_pop=12, algos=0.3, timeout_s=5400, case_timeout_s=900),
 }
 RULE = ('case = one random search space (gen/spaces.random_space with floats, '
         'custom points, names, literals, conditional multi-choices, plus '
-        'injected permutation points and tight float ranges) with a population '
-        'of 2..max_pop reference-sampled parents carrying fitness / proposal / '
+        'injected permutation points, wide constrained multi-choices (3..7 of '
+        'up to 8 candidates, distinct / sorted / both / permutation) and tight '
+        'float ranges) with a population of 2..max_pop reference-sampled '
+        'parents, part of them derived from another parent so that they conflict '
+        'on the constrained multi-choices (rotations, reversals, shifted or '
+        'extreme sorted windows), carrying fitness / proposal / '
         'generation metadata and userdata, and `apps` operator applications: '
         'half single operators (every mutator, recombinator and selector class '
         'with sampled where / weights / n / k / seed parameters, driven inside '
@@ -52,16 +58,20 @@ RULE = ('case = one random search space (gen/spaces.random_space with floats, '
         'expressions of depth <= 4 over >> | & + - ^ * ** [] ~ with_prob '
         'if_true if_false Conditional Choice until_change for_each/flatten '
         'global-state and plain callables; then `kpoint_extra` K-point '
-        'crossovers of the two most different parents; sometimes a full nsga2 / '
+        'crossovers of the two most different parents and `conflict_extra` '
+        'seeded point-wise recombinations of the parents that conflict most on '
+        'a constrained multi-choice; sometimes a full nsga2 / '
         'regularized_evolution run. Each application is run probed (every node '
         'wrapped, all monitors) and bare (as a user writes it) under different '
-        'global RNG states. Non-trivial = the space has a multi-choice or a '
+        'global RNG states; the state of the global RNG is compared before and '
+        'after every node and every bare run. Non-trivial = the space has a multi-choice or a '
         'conditional sub-space and at least half of the applications produced '
         'a checked output; distinct by (space, operator sequence).')
 REQUIRED_COUNTERS = ['member_checks', 'aligned_checks', 'view_checks',
                      'selector_identity_checks', 'selector_count_checks',
                      'routing_checks', 'input_unchanged_checks',
-                     'determinism_checks', 'crossover_semantics_checks']
+                     'determinism_checks', 'global_rng_checks',
+                     'crossover_semantics_checks']
 ASSUMPTIONS = [
     'membership oracle = monitors/genoref.py (arity, range, distinct, sorted, conditional sub-space, float range, str genome, canonical tree shape)',
     'alignment: the decision point id of the i-th valued node equals the id of the i-th reference decision (reference ids are cross-checked against spec.decision_points per case), and to_dict views equal those of DNA.from_numbers(numbers, spec)',
@@ -69,6 +79,8 @@ ASSUMPTIONS = [
     'operators are driven only inside documented preconditions: exactly two parents for segment-wise and permutation recombinators, strictly positive weights, sorted in-range cutting points, fitness present where a selector reads it, a mutable node for mutators.Uniform, non-empty input for sampling selectors; an application that leaves them is counted as inapplicable, never as a violation',
     'an exception raised by library code inside the preconditions is reported (the operator did not map valid DNAs to valid DNAs)',
     'determinism: fresh operator objects from the same description, same inputs, differently seeded global random module',
+    'every generated operator with a random parameter is given a seed (operators, where filters, Choice / with_prob), so the expression is a function of its description and inputs: anything it draws from the global random module is an input that is neither; the state of the module must be the same before and after a call (clause global-rng-consumed, mechanism = innermost node around which the state changed)',
+    'conflicting parents are produced by a harness-side sampler and verified against the membership reference before use',
     'segment-wise crossovers are additionally compared with their documented cutting semantics (Segmented: exact children; KPoint: complementary children with exactly min(k, L-1) cuts)',
     'the exact set algebra of | & - ^ on duplicate-carrying operands is not judged (only routing by identity)',
 ]
@@ -491,16 +503,113 @@ def gen_space(rng):
   if rng.random() < 0.25:
     lo, hi = rng.choice(FLOAT_EDGES)
     extra.append(S.floatv(lo, hi, loc='fedge'))
+  wide = None
+  if rng.random() < 0.5:
+    # a wide constrained multi-choice: many subchoices over many candidates
+    k = rng.choice([3, 4, 5, 6, 7])
+    distinct, srt = rng.choice([(True, False), (True, False), (True, True),
+                                (False, True)])
+    n = k if (distinct and rng.random() < 0.4) else rng.randint(
+        k if distinct else 3, 8)
+    cands = [S.space(S.choice(1, S.consts(2), loc=f'widec{ci}'))
+             if rng.random() < 0.08 else S.CONST for ci in range(n)]
+    wide = S.choice(k, cands, distinct, srt, loc='wide')
+    extra.append(wide)
   for e in extra:
     elems.insert(rng.randint(0, len(elems)), e)
   while S.count_points(S.space(*elems)) > MAX_POINTS and len(elems) > 1:
-    elems.pop(rng.randrange(len(elems)))
+    # (the wide point is kept: the other elements make room for it)
+    victims = [i for i, e in enumerate(elems) if e is not wide]
+    elems.pop(rng.choice(victims))
   return S.space(*elems)
 
 
 def edge_member(desc, rng):
   """A member; float points prefer their bounds (harness-side sampler)."""
   return G.random_member(desc, rng)
+
+
+def is_constrained(e):
+  return e['t'] == 'choice' and e['k'] > 1 and (e['distinct'] or e['sorted'])
+
+
+def top_level_picks(desc, flat):
+  """[(element, values of its top-level decisions)] of a member."""
+  tops = [pt for pt in G.walk(desc, flat) if not any(t[0] == 'c' for t in pt.path)]
+  out, i = [], 0
+  for e in desc['elems']:
+    k = e['k'] if e['t'] == 'choice' else 1
+    out.append((e, [pt.value for pt in tops[i:i + k]]))
+    i += k
+  return out
+
+
+def conflicting_picks(picks, n, distinct, srt, rng):
+  """Decisions of a constrained multi-choice that are valid by themselves and
+  disagree with `picks` position by position as much as the constraint allows
+  (so that mixing the two position-wise tends to break the constraint)."""
+  k = len(picks)
+  if not srt:                                    # distinct, any order
+    how = rng.choice(['rotate', 'rotate', 'reverse', 'shuffle', 'shift'])
+    if how == 'rotate':
+      r = rng.randint(1, k - 1)
+      return picks[r:] + picks[:r]
+    if how == 'reverse':
+      return picks[::-1]
+    if how == 'shuffle':
+      out = list(picks)
+      rng.shuffle(out)
+      return out
+    d = rng.randint(1, n - 1) if n > 1 else 0
+    return [(p + d) % n for p in picks]
+  if distinct:                                   # strictly increasing
+    how = rng.choice(['low', 'high', 'random', 'shift'])
+    if how == 'low':
+      return list(range(k))
+    if how == 'high':
+      return list(range(n - k, n))
+    if how == 'shift' and picks[-1] < n - 1:
+      return [p + 1 for p in picks]
+    return sorted(rng.sample(range(n), k))
+  how = rng.choice(['equal', 'equal', 'two-level', 'ramp', 'random'])
+  if how == 'equal':
+    return [rng.choice([0, n - 1, n // 2, rng.randrange(n)])] * k
+  if how == 'two-level':
+    a, b = sorted([rng.randrange(n), rng.randrange(n)])
+    cut = rng.randint(1, k - 1)
+    return [a] * cut + [b] * (k - cut)
+  if how == 'ramp':
+    return sorted(min(n - 1, (i * n) // k) for i in range(k))
+  return sorted(rng.randrange(n) for _ in range(k))
+
+
+def conflict_member(desc, base, rng):
+  """A member derived from the member `base` (harness-side sampler)."""
+  out = []
+  for e, picks in top_level_picks(desc, base):
+    if e['t'] != 'choice':
+      out.append(picks[0] if rng.random() < 0.5
+                 else G.random_member(S.space(e), rng)[0])
+      continue
+    if is_constrained(e):
+      picks = conflicting_picks(list(picks), len(e['cands']), e['distinct'],
+                                e['sorted'], rng)
+    elif rng.random() < 0.5:
+      picks = [rng.randrange(len(e['cands'])) for _ in picks]
+    for p in picks:
+      out.append(p)
+      out.extend(G.random_member(e['cands'][p], rng))
+  out = tuple(out)
+  return out if G.is_member(desc, out) else None
+
+
+def multi_choice_distance(desc, a, b):
+  """Number of subchoice positions of constrained top-level multi-choices at
+  which two members decide differently."""
+  return sum(sum(x != y for x, y in zip(pa, pb))
+             for (e, pa), (_, pb) in zip(top_level_picks(desc, a),
+                                         top_level_picks(desc, b))
+             if is_constrained(e))
 
 
 class Env:
@@ -528,6 +637,7 @@ class Env:
       else:
         self.npos += 1
     self.has_float = S.has_kind(desc, 'float')
+    self.constrained = [e for e in desc['elems'] if is_constrained(e)]
 
   def positions(self, flat):
     """Splits a member into the values of its independent positions."""
@@ -548,10 +658,14 @@ class Env:
   def make_population(self, rng, n):
     self.members = []
     for i in range(n):
+      m = None
       if i and rng.random() < 0.15:
-        self.members.append(rng.choice(self.members))   # equal, not identical
-      else:
-        self.members.append(edge_member(self.desc, rng))
+        m = rng.choice(self.members)                    # equal, not identical
+      elif i and self.constrained and rng.random() < 0.45:
+        m = conflict_member(self.desc, rng.choice(self.members), rng)
+        self.ctx.counters['conflict_members' if m is not None
+                          else 'conflict_member_sampler_failed'] += 1
+      self.members.append(m if m is not None else edge_member(self.desc, rng))
     self.fitness = []
     for _ in range(n):
       if self.multi:
@@ -873,8 +987,9 @@ class Run:
       if isinstance(x, pg.DNA) and id(x) not in seen:
         seen.add(id(x))
         snaps.append((x, snapshot(x)))
-    frame = {'kids': {}}
+    frame = {'kids': {}, 'rng_inside': False}
     self.stack.append(frame)
+    rng_state = pyrandom.getstate()
     try:
       out = real(inputs, global_state=global_state, step=step)
     except (Inapplicable, Abort):
@@ -901,6 +1016,16 @@ class Run:
       raise
     finally:
       self.stack.pop()
+    # the global RNG is not an input of a seeded / deterministic node
+    c['global_rng_checks'] += 1
+    if pyrandom.getstate() != rng_state:
+      if not frame['rng_inside']:       # not already attributed to an operand
+        self.fail('global-rng-consumed', name,
+                  f'{show(node)} at step {step} drew from the global random '
+                  f'module although all its random parameters are seeded; '
+                  f'inputs {[repr(x) for x in flat_in][:6]}')
+      if self.stack:
+        self.stack[-1]['rng_inside'] = True
     if not isinstance(out, list):
       self.fail('not-a-list', name, f'{show(node)} returned {out!r}')
       raise Abort()
@@ -1179,6 +1304,7 @@ def apply_expression(ctx, env, rng, expr, idxs, step, case):
   if is_plain(op2):
     op2 = B.make_operation_compatible(op2)
   pyrandom.seed(seed_b)
+  rng_state = pyrandom.getstate()
   try:
     out2 = op2(list(inputs), global_state=pg.geno.AttributeDict(), step=step)
   except Exception as e:  # pylint: disable=broad-except
@@ -1190,6 +1316,13 @@ def apply_expression(ctx, env, rng, expr, idxs, step, case):
                   + ''.join(traceback.format_exception(e))[-2500:], case)
     verify_population(ctx, env, 'expression', case)
     return summary
+  c['global_rng_checks'] += 1
+  if pyrandom.getstate() != rng_state:
+    # (the probed run of the same description did not: it would have reported)
+    ctx.violation('global-rng-consumed', root if single else 'expression',
+                  f'{show(expr)} at step {step} (as written, without probes) '
+                  f'drew from the global random module although all its random '
+                  f'parameters are seeded', case)
   c['determinism_checks'] += 1
   s1, s2 = signature(env, pop_ids, out1), signature(env, pop_ids, out2)
   if s1 != s2:
@@ -1421,6 +1554,26 @@ def distant_pair(rng, env):
   return rng.choice(pairs)
 
 
+def conflict_parents(rng, env):
+  """Indices of 2-3 parents: the pair that disagrees at most subchoice
+  positions of the constrained multi-choices, sometimes with a third parent."""
+  best, pairs = -1, []
+  for i in range(len(env.members)):
+    for j in range(len(env.members)):
+      if i != j:
+        d = multi_choice_distance(env.desc, env.members[i], env.members[j])
+        if d > best:
+          best, pairs = d, []
+        if d == best:
+          pairs.append([i, j])
+  idxs = list(rng.choice(pairs))
+  env.ctx.counters['conflict_pair_distance_sum'] += best
+  others = [i for i in range(len(env.members)) if i not in idxs]
+  if others and rng.random() < 0.3:
+    idxs.append(rng.choice(others))
+  return idxs
+
+
 def gen_application(rng, env, which):
   """(expression, indices of the parents it is applied to)."""
   npop = len(env.pop)
@@ -1567,6 +1720,19 @@ def run_case(ctx, i):
       apply_expression(ctx, env, rng, expr, idxs, step,
                        dict(case, expression=show(expr), parents=idxs, step=step))
       ops_seen.append('recombinators.KPoint')
+  # conflict battery: seeded point-wise recombination of the parents that
+  # disagree most on a constrained multi-choice
+  if env.constrained and len(env.pop) >= 2:
+    for _ in range(int(ctx.params.get('conflict_extra', 0))):
+      expr = gen_leaf(rng, env, rng.choice(['recombinators.Uniform',
+                                            'recombinators.Sample']), True)
+      expr.pop('wseed', None)
+      expr['where'] = rng.choice([None, None, 'ALL'])
+      idxs, step = conflict_parents(rng, env), rng.randrange(8)
+      c['conflict_applications'] += 1
+      apply_expression(ctx, env, rng, expr, idxs, step,
+                       dict(case, expression=show(expr), parents=idxs, step=step))
+      ops_seen.append(expr['op'])
   if rng.random() < float(ctx.params['algos']):
     run_algorithm(ctx, env, rng, case)
   rich = any(e['t'] == 'choice' and (e['k'] > 1 or any(cd['elems'] for cd in e['cands']))
